@@ -73,7 +73,8 @@ pub fn formula_template(kind: &str, header: bool, clauses: &[(Option<String>, Ve
             t.push(spelled("7"));
             h.push("7".into());
         }
-        t.push(line_end());
+        // a header without clauses is the last line of its document
+        t.push(if clauses.is_empty() { last_line_end() } else { line_end() });
         value.header = Some(h);
     } else {
         t.push(Piece::Slot("before first statement", alts(&[b"", b"\n", b"c comment\n", b"  ", b"c\n\n"])));
